@@ -310,7 +310,7 @@ def read(fname, fmt=None, *, mode='r', encoding=None, tool=None, **kw):
       customize output with BioBasket.tostr() method
     """
     if fmt is None:
-        fmt = detect(fname, **kw)
+        fmt = detect(fname, encoding=encoding, **kw)
     if fmt is None:
         raise IOError('Format cannot be auto-detected')
     fmt = fmt.lower()
@@ -358,7 +358,7 @@ def read_fts(fname, fmt=None, *, mode='r', encoding=None, **kw):
     {format_table}
     """
     if fmt is None:
-        fmt = detect(fname, what='fts', **kw)
+        fmt = detect(fname, what='fts', encoding=encoding, **kw)
     if fmt is None:
         raise IOError('Format cannot be auto-detected')
     fmt = fmt.lower()
